@@ -160,6 +160,9 @@ def _mk_body(sname, scfg, rig: Rig):
                              "got": "none" if r is None else "list",
                              "uids": [] if r is None else [E.uid_of(x) for x in r],
                              "tys": [] if r is None else [E.ty_of(x) for x in r]})
+                    if op.get("hold"):
+                        # the step read its snapshot first and is still running when other results are applied
+                        await rig.make_gate(key)
                     if r is None:
                         how = "none"
                         return None
